@@ -52,9 +52,89 @@ def _wf(ctx, n):
     _oracle(ctx, "wf", lines, outs, "parse tree of a well-formed expression / whitespace invariance", [0])
 
 
+_SINGLE = {"abs", "cbrt", "ceil", "exp", "exp2", "floor", "log", "log1p", "log10", "round", "sqrt"}
+
+
+def _unhex(h):
+    return b"" if h == "-" else bytes.fromhex(h)
+
+
+def _hex(b):
+    return b.hex() if b else "-"
+
+
+def _next_arg(b):
+    """NextArg (the model's nextArg is compared with the implementation's on the `a` lines of the struct stream)"""
+    parens = 0
+    for i, ch in enumerate(b):
+        if ch == 0x28:
+            parens += 1
+        elif ch == 0x29:
+            parens -= 1
+        elif ch == 0x2C and parens == 0:
+            return b[:i], b[i + 1:]
+    return b, b""
+
+
+def _split_args(name, b):
+    """the argument texts a standard function evaluates: one-argument functions take the whole text, max/min/if walk
+    it with NextArg until nothing remains"""
+    if name in _SINGLE:
+        return [b]
+    parts = []
+    while b:
+        a, b = _next_arg(b)
+        parts.append(a)
+    return parts
+
+
+def _expand_calls(ctx, trees, depth=10):
+    """replace every call node `F un name args` of the model's trees by `G un name k <tree of arg 1> … <tree of arg k>`
+    (trees again from the Lean driver), so that the harness can hand VALUES to the library's functions"""
+    toks = [t.split(" ") for t in trees]
+    for _ in range(depth):
+        want = set()
+        for tk in toks:
+            for i, w in enumerate(tk):
+                if w == "F":
+                    for a in _split_args(_unhex(tk[i + 2]).decode("latin-1"), _unhex(tk[i + 3])):
+                        want.add(_hex(a))
+        if not want:
+            break
+        want = sorted(want)
+        outs = ctx.run_model("drv_c09", ["t " + h for h in want])
+        if outs is None:
+            return None
+        sub = {}
+        for h, o in zip(want, outs):
+            sub[h] = {"err": ["X"], "empty": ["M"], "panic": ["P"], "bad-op": ["X"]}.get(o) or o.split(" ")
+        new = []
+        for tk in toks:
+            if "F" not in tk:
+                new.append(tk)
+                continue
+            out = []
+            i = 0
+            while i < len(tk):
+                if tk[i] == "F":
+                    parts = _split_args(_unhex(tk[i + 2]).decode("latin-1"), _unhex(tk[i + 3]))
+                    out += ["G", tk[i + 1], tk[i + 2], str(len(parts))]
+                    for a in parts:
+                        out += sub[_hex(a)]
+                    i += 4
+                else:
+                    out.append(tk[i])
+                    i += 1
+            new.append(out)
+        toks = new
+    return [" ".join(tk) for tk in toks]
+
+
 def _val(ctx, n, only=None):
     tl = only if only is not None else ctx.corpus("val") + ctx.gen("val", ctx.seed * 104729 + 5, n[ctx.tier])
     trees = ctx.run_model("drv_c09", tl)
+    if trees is not None:
+        trees = _expand_calls(ctx, trees)
     if trees is None:
         ctx.violations.append({"kind": "correspondence", "concrete": False, "what": "model driver drv_c09 failed on the value stream"})
         return
@@ -64,7 +144,9 @@ def _val(ctx, n, only=None):
         return
     ctx.rules.append("area val: the Lean driver prints the model's parse tree (variables substituted); the harness walks it "
                      "with the library's exported Operator.Evaluate/EvaluateUnary and Functions and compares with "
-                     "Evaluate of 6 real evaluators (fixed D4/D2, float64/32, both division-by-zero settings), reused and fresh")
+                     "Evaluate of 7 real evaluators (fixed D4/D2, float64/32, both division-by-zero settings), reused and fresh; "
+                     "literal texts are converted by the harness's own strconv.ParseFloat at the evaluator's bit size / "
+                     "fXX.FromString and handed to operators and functions as VALUES (call arguments: trees from the driver)")
     before = len(ctx.violations)
     _oracle(ctx, "val", vl, outs, "value of the model's tree vs the real evaluators", [0])
     for v in ctx.violations[before:]:
@@ -72,7 +154,7 @@ def _val(ctx, n, only=None):
         rep["val_t_lines"] = ["t " + rep["ops"][0].split(" ")[1]]
         json.dump(rep, open(v["replay"], "w"), indent=1)
     ctx.extra["val_model_err"] = sum(1 for t in trees if t == "err")
-    ctx.extra["val_model_tree"] = sum(1 for t in trees if t[:1] in "OFT")
+    ctx.extra["val_model_tree"] = sum(1 for t in trees if t[:1] in "OFGT")
 
 
 def run(ctx):
@@ -85,14 +167,17 @@ def run(ctx):
                      "function calls f ( a , b ), all binary operators, signs before atoms/calls/parentheses, parentheses) in "
                      "every blank layout; call_capture — processFunction's loop = counting '(' / ')' bytes, for every text; "
                      "nextArg_split — NextArg iterated splits a rendered argument list at exactly its separating commas; "
-                     "evaluate_render_partial / evaluate_reuse_render_partial — Evaluate(render e) = bracketed form incl. "
-                     "nested EvaluateNew through function arguments (atoms without `$`); evaluate_render_vars_partial — the "
-                     "same with variables outside call arguments; evaluate_no_panic / evaluate_total — Evaluate of EVERY "
-                     "byte list neither panics nor exhausts a fuel (resolver answers `$`-free and not longer than `$name`)",
-                     "NOT proved (kept as C09.evaluate_render_Statement): variables INSIDE call arguments at the evaluation "
-                     "level (substitution on the raw argument text before it is parsed again); covered by the struct and "
-                     "val differential streams only.  The operator/function VALUES (fixed/float arithmetic, division by "
-                     "zero as configured) are not modelled in Lean at all: they are tied by the val stream"]
+                     "replaceVariables_args — substitution on the raw argument text = argument text of the substituted call; "
+                     "evaluate_render / evaluate_reuse_render — Evaluate(render e) = bracketed form of e with its variables "
+                     "replaced, incl. nested EvaluateNew through function arguments, for resolvers answering with literals "
+                     "(evaluate_render_closed: no variables, any or no resolver; evaluate_render_vars_partial: any non-blank "
+                     "`$`-free answers for variables outside call arguments); whitespace_irrelevant; evaluate_no_panic / "
+                     "evaluate_total — Evaluate of EVERY byte list neither panics nor exhausts a fuel (resolver answers "
+                     "`$`-free and not longer than `$name`, the latter only for the model's nesting budget len+1)",
+                     "no statement of C09 is left as an unproved `_Statement`; NOT modelled in Lean at all: the operator and "
+                     "function VALUES (fixed/float arithmetic, division by zero as configured, arity of the standard "
+                     "functions) — they are tied by the val stream (the model's tree walked with the library's own "
+                     "operator functions vs the six real evaluators)"]
     ctx.assumptions += ["variable resolvers return literals (text without `$`); a resolver answering with `$…` makes "
                         "replaceVariables loop, which is outside the property's quantifier",
                         "function calls in well-formed expressions have the arity of the function (`max()` vs `max( )` "
@@ -113,7 +198,7 @@ def run(ctx):
     ctx.diff(area="struct", driver="drv_c09", n={"quick": 120000, "thorough": 6000000}, stateful=True,
              trivial=lambda l, o: o in ("err", "ok -"),
              tagger=lambda l, o: ("struct:" + o.split(" ", 1)[0]) if l[:1] in "sf" else None,
-             theorem="C09.parse_render / evaluate_render_partial / evaluate_no_panic / precedence_table are about "
+             theorem="C09.parse_render / evaluate_render / evaluate_no_panic / precedence_table are about "
                      "Eval.parseLoop / Eval.evaluate; the implementation builds a different tree (or fails differently) "
                      "than the model on this input")
     _wf(ctx, {"quick": 30000, "thorough": 1500000})
